@@ -69,15 +69,20 @@ LAYOUTS = {"flat": compose_models_flat, "nested": compose_models}
 
 
 def make_str_registry(names=DEFAULT_TYPES):
-    """A fresh explicit registry with the library's documented replace relation (Float covers Int),
-    built through the public `add` API in the given registration order."""
+    """A fresh explicit registry built through the public API in the given registration order. When the three datetime types come
+    last in their canonical order they are registered the way users do it: with the library's own register_datetime_classes()."""
+    from json_to_models.dynamic_typing import register_datetime_classes
+    names = list(names)
     reg = StringSerializableRegistry()
-    for n in names:
+    tail_dt = len(names) >= 3 and tuple(names[-3:]) == DATETIME_TYPES
+    for n in (names[:-3] if tail_dt else names):
         cls = PSEUDO[n]
         if cls is FloatString:
             reg.add(replace_types=(IntString,), cls=cls)
         else:
             reg.add(cls=cls)
+    if tail_dt:
+        register_datetime_classes(reg)
     return reg
 
 
@@ -105,6 +110,7 @@ MERGE_POLICIES = {
     "percent_50": [("percent", 0.5)],
     "number_1": [("number", 1)],
     "percent_50+number_2": [("percent", 0.5), ("number", 2)],
+    "number_10": [("number", 10)],     # small identical models stay separate: structurally equal siblings
 }
 
 
@@ -113,11 +119,22 @@ class Built:
 
 
 def build(samples, types=DEFAULT_TYPES, dkr=None, dkf=None, merge="default", root_name="Root",
-          do_merge=True, names=True):
-    """samples -> fresh generator/registry, the real pipeline up to (and including) name generation."""
+          do_merge=True, names=True, late_types=()):
+    """samples -> fresh generator/registry, the real pipeline up to (and including) name generation.
+    late_types: pseudo-types registered AFTER the generator object was constructed (a legal history of the public API)."""
     b = Built()
-    b.strreg = make_str_registry(types)
+    b.strreg = make_str_registry([t for t in types if t not in late_types])
     b.gen = MetadataGenerator(str_types_registry=b.strreg, dict_keys_regex=dkr, dict_keys_fields=dkf)
+    if late_types:
+        if tuple(late_types) == DATETIME_TYPES:
+            from json_to_models.dynamic_typing import register_datetime_classes
+            register_datetime_classes(b.strreg)
+        else:
+            for n in late_types:
+                if PSEUDO[n] is FloatString:
+                    b.strreg.add(replace_types=(IntString,), cls=PSEUDO[n])
+                else:
+                    b.strreg.add(cls=PSEUDO[n])
     b.meta = b.gen.generate(*samples)
     b.reg = ModelRegistry(*make_cmps(MERGE_POLICIES[merge] if isinstance(merge, str) else merge))
     b.root = b.reg.process_meta_data(b.meta, model_name=root_name)
